@@ -61,6 +61,8 @@ THEOREMS_TREE = [
     "OllamaVerif.C17.one_final_generate",
     "OllamaVerif.C17.one_final_chat",
     "OllamaVerif.C17.runner_protocol_needed",
+    "OllamaVerif.C17.completion_shape",
+    "OllamaVerif.C17.one_final_from_runner_body",
     "OllamaVerif.C17.tokenize_failure_after_done",
     "OllamaVerif.C17.prestream_reply_same",
     "OllamaVerif.C17.prestream_reply_single",
@@ -72,7 +74,6 @@ THEOREMS_TREE = [
     "OllamaVerif.C17.oaStreamFixed_eq_pinned",
     "OllamaVerif.C17.openai_stream_once_agree",
     "OllamaVerif.C17.openai_finish_agree",
-    "OllamaVerif.C17.finish_reason_on_done_chunk",
     "OllamaVerif.C17.openai_once_equiv",
     "OllamaVerif.C17.openai_chat_stream_equiv",
     "OllamaVerif.C17.openai_cmpl_stream_equiv",
@@ -88,7 +89,7 @@ THEOREMS_TREE = [
     "OllamaVerif.C17.client_one_final",
     "OllamaVerif.C17.client_every_reply",
     "OllamaVerif.C17.F17a_split_loses_call",
-    "OllamaVerif.C17.F17f_repaired_finish_reason",
+    "OllamaVerif.C17.F17f_repaired_finish_reason",     # the writer /repo runs since 9e8f7fa39
     "OllamaVerif.Tie.C17.tree_variant",
     "OllamaVerif.Tie.C17.client_limit_documented",
     "OllamaVerif.Tie.C17.reason_table_complete",
@@ -105,6 +106,7 @@ THEOREMS_HISTORICAL_OR_PATCH = [
     "OllamaVerif.C17.F17c_openai_stream_error_swallowed",
     "OllamaVerif.C17.F17d_silent_end_no_final",
     "OllamaVerif.C17.F17e_client_drops_long_reply",
+    "OllamaVerif.C17.finish_reason_on_done_chunk",       # before F17f (9e8f7fa39)
     "OllamaVerif.C17.tools_equiv_fixed",                # C17-F17ab.patch, not in /repo
     "OllamaVerif.C17.tools_equiv_fixed_monotone",
 ]
@@ -115,8 +117,9 @@ THEOREMS = THEOREMS_TREE + THEOREMS_HISTORICAL_OR_PATCH
 #   16 = C17-F17e.patch (api.Client returns the scanner's error), 32 = C17-F17f.patch (finish_reason of a final message
 #   that carries the tool call; NOT in /repo).
 # One edit when the lead applies a fix (or VERIF_C17_VARIANT for a scratch worktree).
-VARIANT = 30  # fixed in /repo: F17c (499276761, bit 2), F17b (bit 4), F17d (bit 8), F17e (2a881f3aa, bit 16)
+VARIANT = 62  # fixed in /repo: F17c (499276761, bit 2), F17b (bit 4), F17d (bit 8), F17e (2a881f3aa, bit 16), F17f (9e8f7fa39, bit 32)
 OVERLAY = {"server/zz_verif_c17_test.go": "server/zz_verif_c17_test.go"}
+OVERLAY_LLM = {"llm/zz_verif_c17_llm_test.go": "llm/zz_verif_c17_llm_test.go"}
 
 
 # Branches of the model (= of the handlers / writers / client, L1 being exact) that the theorems talk about; the
@@ -146,6 +149,10 @@ REQUIRED_COUNTERS = [
     "fault_load/cap", "fault_load/cancel", "fault_load/queue", "fault_load/notexist", "groups_with_prestream_shapes",
     # L2 comparisons that must have taken place
     "l2_openai_compared_stream", "l2_openai_compared_once",
+    # llmServer.Completion (scripted runner): every ending, every shape of outcome, the content+done quirk
+    "completion_end_0", "completion_end_3", "completion_end_4", "completion_end_5", "completion_end_6", "completion_end_7",
+    "completion_dones_1_ret_nil", "completion_dones_0_ret_nil", "completion_dones_0_ret_err",
+    "completion_content_and_done_line_delivered_twice", "completion_token_repeat_abort",
     # generator classes
     "end_ok", "end_err", "end_silent", "done_chunk_has_content", "tools_early_parse", "tools_whole_parses", "long_groups",
     "conv_last_t", "conv_last_A", "conv_last_a", "conv_last_s", "conv_last_u", "texts_all_splits", "corpus_groups",
@@ -269,15 +276,22 @@ def run(ctx):
     if rc != 0:
         ctx.violation("driver-failed", "", out[-1500:], no_input=True)
     ctx.read_stats(outdir)
+    # the runner protocol the theorems assume (CompletionShape), on the real llmServer.Completion with a scripted HTTP runner
+    rc2, out2, outdir2 = ctx.go_test("./llm/", OVERLAY_LLM, "^TestVerifC17Completion$", env={"VERIF_N": ctx.scale(400, 4000)}, timeout=900)
+    if rc2 != 0:
+        ctx.violation("driver-failed", "", "TestVerifC17Completion: " + out2[-1500:], no_input=True)
+    ctx.read_stats(outdir2)
     coverage_required(ctx)
     ctx.l1(outdir)
-    ctx.classify(ctx.l2(outdir))
+    ctx.l1(outdir2, label="L1-completion")
+    ctx.classify(ctx.l2(outdir) + ctx.l2(outdir2))
     if ctx.thorough:
         ctx.leanchecker(MODULES)
     ctx.assumptions += [
-        "llmServer.Completion (llm/server.go, not anchored, not driven) hands the callback content chunks and then either one done "
-        "chunk + nil, an error, or nil without a done chunk (CompletionShape); outside it the handlers give two terminal items "
-        "(runner_protocol_needed); its final message is empty (a content+done runner line is delivered as two callbacks)",
+        "the shipped runner's final message is empty (llmServer.Completion delivers a content+done runner line as two callbacks, "
+        "so its content would reach the client twice: recorded by the llm driver, outside the anchored files)",
+        "llmServer.Completion: JSON decoding of runner lines, the error texts and non-ASCII white space in the token-repeat guard "
+        "are inputs of its model; context cancellation is not driven",
         "error texts are not the empty string (api.Client and the OpenAI stream writers treat {\"error\":\"\"} as a message)",
         "model names contain no character that %q escapes (handleScheduleError's not-found text)",
         "runner chunks are valid UTF-8 strings (splits are taken at rune boundaries)",
